@@ -120,18 +120,21 @@ Proof.
   rewrite IH. reflexivity.
 Qed.
 
-Lemma run_schedule_with_ext upd1 upd2 P E crashes :
+Lemma run_schedule_with_ext upd1 upd2 obs1 obs2 P E crashes :
   (forall d c tr va cn v ro, upd1 d c tr va cn v ro = upd2 d c tr va cn v ro) ->
-  forall d cn, run_schedule_with upd1 P E d cn crashes = run_schedule_with upd2 P E d cn crashes.
+  (forall d oc lg, obs1 P d oc lg = obs2 P d oc lg) ->
+  forall d cn, run_schedule_with upd1 obs1 P E d cn crashes = run_schedule_with upd2 obs2 P E d cn crashes.
 Proof.
-  intros H. induction crashes as [|b more IH]; intros d cn; cbn [run_schedule_with]; unfold start_with;
-    rewrite (seg_with_ext upd1 upd2 E _ H); [reflexivity|].
-  destruct (seg_with upd2 E _ d _ cn (Some b)) as [[[[d' cn'] oc] lg]|]; [|reflexivity].
-  destruct oc; try reflexivity. rewrite IH. reflexivity.
+  intros H Ho. induction crashes as [|b more IH]; intros d cn; cbn [run_schedule_with]; unfold start_with;
+    rewrite (seg_with_ext upd1 upd2 E _ H).
+  - destruct (seg_with upd2 E _ d _ cn None) as [[[[d' cn'] oc] lg]|]; [|reflexivity]. rewrite Ho. reflexivity.
+  - destruct (seg_with upd2 E _ d _ cn (Some b)) as [[[[d' cn'] oc] lg]|]; [|reflexivity].
+    rewrite Ho. destruct (obs2 P d' oc lg); [|reflexivity]. destruct oc; try reflexivity. rewrite IH. reflexivity.
 Qed.
 
 Lemma run_schedule_with_model P E crashes : forall d cn,
-  run_schedule_with (fun d c tr va cn v ro => Some (update_ops P d c tr va cn v ro)) P E d cn crashes
+  run_schedule_with (fun d c tr va cn v ro => Some (update_ops P d c tr va cn v ro))
+                    (fun P d oc lg => Some (observe P d oc lg)) P E d cn crashes
   = Some (run_schedule P E d cn crashes).
 Proof.
   induction crashes as [|b more IH]; intros d cn; cbn [run_schedule_with run_schedule]; unfold start_with, start;
@@ -141,15 +144,25 @@ Proof.
     rewrite IH. reflexivity.
 Qed.
 
-(* whole runs, formats of the same kind: running the translated source in place of Model.update_ops
-   gives Model.run, for every metric history, oracle and crash schedule *)
+(* what a fresh controller reports as last / best epoch, interpreted from the source, is the model's *)
+Lemma src_observe_tie P d oc lg : src_observe P d oc lg = Some (observe P d oc lg).
+Proof.
+  unfold src_observe, observe, run_last_epoch, run_best_epoch.
+  rewrite last_epoch_tie. destruct (best_epoch_tie P d 0 [] P (read_cache (csv d)) (bt P)) as [st E]. rewrite E.
+  unfold nat_result, vnat. rewrite !zleb0_nat, !Nat2Z.id. reflexivity.
+Qed.
+
+(* whole runs, formats of the same kind: running the translated source in place of Model.update_ops and of
+   get_last_epoch / get_best_epoch gives Model.run, for every metric history, oracle and crash schedule *)
 Theorem src_run_tie_same_fmt P metrics ros crashes : ep_m P = ep_o P ->
   src_run P metrics ros crashes = Some (Model.run P metrics ros crashes).
 Proof.
   intros H. unfold src_run, Model.run.
-  rewrite (run_schedule_with_ext (src_update_ops P) (fun d c tr va cn v ro => Some (update_ops P d c tr va cn v ro))).
+  rewrite (run_schedule_with_ext (src_update_ops P) (fun d c tr va cn v ro => Some (update_ops P d c tr va cn v ro))
+             src_observe (fun P d oc lg => Some (observe P d oc lg))).
   - apply run_schedule_with_model.
   - intros. apply src_update_tie_same_fmt, H.
+  - intros. apply src_observe_tie.
 Qed.
 
 (* ---- statements in the vocabulary Properties.v can write (no string literals there) ------------- *)
